@@ -299,6 +299,36 @@ def serial_retry_case(rng, cid):
     return c2
 
 
+def retry_overlap_case(rng, cid):
+    """Several concurrent one- or two-step scenarios with immediate retries whose last callbacks
+    complete in the SAME executor turn (all waiting gates are opened at once): a retry re-queued
+    too early would be dispatched while the failed attempt is still winding down."""
+    c = gen_case(rng, cid, "clean")
+    f = c["features"][0]
+    base = max([int(s[1:]) for s in c["expect"]["scen"]] + [0])
+    new = []
+    nsteps = rng.choice([1, 2])
+    for j in range(rng.choice([3, 4])):
+        new.append({"name": f"S{base + 1 + j}", "tags": ["retry(1)"] if j < 2 else [],
+                    "steps": ["run"] * nsteps})
+    # the passing scenarios first: within one executor turn they are polled (and complete) before
+    # the failing ones resume
+    f["scenarios"] = new[2:] + new[:2] + f["scenarios"]
+    c2 = rebuild_expect(c, rng)
+    for j in range(2):
+        name = f"S{base + 1 + j}"
+        last = len(new[j]["steps"])
+        c2["outcomes"][name] = [{"steps": {f"{name} step {last}": rng.choice(PANICS)}}, {"steps": {}}]
+    c2["cfg"]["conc_cli"] = None
+    c2["cfg"]["conc_builder"] = rng.choice(["default", 3, 4])
+    lim = c2["cfg"]["conc_builder"]
+    c2["expect"]["limit"] = 64 if lim == "default" else lim
+    c2["cfg"]["fail_fast_cli"] = c2["cfg"]["fail_fast_builder"] = False
+    c2["expect"]["fail_fast"] = False
+    c2["schedule"]["multi_pct"] = 100
+    return c2
+
+
 def twin_pair(rng, cid):
     """A failure-free case and its fail-fast twin (C08, last sentence)."""
     a = gen_case(rng, cid + "a", "clean")
@@ -333,6 +363,8 @@ def gen_cases(seed, n, profiles=("mixed", "serial", "retry", "failfast", "lazy",
             cases.extend(twin_pair(rng, f"c{i}"))
         elif i % 11 == 0:
             cases.append(serial_retry_case(rng, f"c{i}"))
+        elif i % 13 == 0:
+            cases.append(retry_overlap_case(rng, f"c{i}"))
         else:
             cases.append(gen_case(rng, f"c{i}", profiles[i % len(profiles)]))
     return cases
